@@ -49,7 +49,11 @@ def ways : List Way :=
    ⟨"Serve+handlerStreamErr", true, [.handlerFails .wrapStream]⟩,
    ⟨"Serve+deadline", true, [.setDeadline .past]⟩,
    ⟨"Close+Serve+peerClose", true, [.close, .peerClose]⟩,
-   ⟨"Close+Serve+handlerErr", true, [.close, .handlerErr]⟩]
+   ⟨"Close+Serve+handlerErr", true, [.close, .handlerErr]⟩,
+   -- a transmit call abandoned half way (its payload reader failed), then `Close`: closed is closed,
+   -- every entry point answers as after a plain `Close` (the output-closed error, not the
+   -- unexported "earlier write was abandoned" one)
+   ⟨"Abandon+Close", false, [.close]⟩]
 
 def stateAfter (w : Way) : Hist.St := (Hist.run (Hist.init w.serve) w.ops).1
 
